@@ -512,6 +512,15 @@ def run_j2(chk, P):
             if not r.check(fld == 'status', key, loc, '%s writes job field `%s` (%s, %d bytes): caller-owned part of the descriptor' % (
                     name, fld, s_['kind'], s_['w'])):
                 continue
+            # the store must not be wider than the field: the bytes after `status` belong to the caller's session parameters
+            sf = T.field_at('IMB_JOB', T.offset_of('IMB_JOB', 'status'))
+            wide_ok = s_['w'] <= sf[2] if sf else True
+            if sf and s_['kind'] == 'or' and s_.get('imm') is not None and 0 <= s_['imm'] < (1 << (8 * sf[2])):
+                wide_ok = True   # a wider read-modify-write OR of a small constant rewrites the following bytes with their own value
+            if sf and not r.check(wide_ok, key + ':width', loc,
+                                  '%s writes %d bytes at job->status (a %d-byte field): the following caller-owned field is overwritten' % (
+                                      name, s_['w'], sf[2])):
+                continue
             if s_['kind'] == 'or':
                 r.check(s_['imm'] in (st.get('IMB_STATUS_COMPLETED_CIPHER'), st.get('IMB_STATUS_COMPLETED_AUTH'), st.get('IMB_STATUS_COMPLETED')),
                         key + ':val', loc, '%s ORs %s into job->status' % (name, s_['imm']))
